@@ -302,7 +302,9 @@ if __name__ == "__main__":
     import sys
     name = sys.argv[1]
     rl = int(sys.argv[2]) if len(sys.argv) > 2 else None
-    r = run_unit(name, rlimit=rl, use_cache=False)
+    import shlex
+    xa = tuple(shlex.split(os.environ.get("VERUS_EXTRA", "")))   # e.g. VERUS_EXTRA='--smt-option smt.arith.solver=6'
+    r = run_unit(name, rlimit=rl, extra_args=xa, use_cache=False)
     print("unit", name, "ok=", r.ok, "undecided=", r.undecided, "verified=", r.verified, "errors=", r.n_errors,
           "wall=%.1fs smt=%dms" % (r.wall_s, r.smt_ms), "canary_ok=", r.canary_ok)
     for k, v in sorted(r.fn_results.items()):
